@@ -5,10 +5,12 @@ diff=$1; txt=$2; id=$3
 cd /verif
 [ -n "$(git -C /repo status --porcelain)" ] && { echo "repo dirty"; exit 2; }
 mkdir -p seeded/$id; cp $diff seeded/$id/patch.diff; cp $txt seeded/$id/demo
+rm -rf /var/tmp/ev.bak; cp -r /verif/evidence /var/tmp/ev.bak   # evidence written while /repo is mutated must not survive
 git -C /repo apply $(realpath seeded/$id/patch.diff) || { echo "apply failed"; exit 2; }
 suite=$(cd /repo && CARGO_NET_OFFLINE=true cargo test --workspace --no-fail-fast --offline 2>&1 | grep -E "^test result" | awk '{p+=$4; f+=$6} END {print "passed=" p " failed=" f}')
 found=$(python3 tool/search_tail.py 2>/dev/null | tail -1)
 out=$(./check C04 2>&1); rc=$?
 git -C /repo checkout -- .
+rm -rf /verif/evidence; mv /var/tmp/ev.bak /verif/evidence
 echo "$id suite[$suite] search[$(echo $found | cut -c1-200)]"
 echo "$id check rc=$rc :: $(echo "$out" | grep -E "VIOLATION|UNDECIDED|^OK" | head -2 | cut -c1-300)"
